@@ -12,6 +12,7 @@
 -/
 import GraphiqModel.Proofs.LCGates
 import GraphiqModel.Proofs.TabSpecOps
+import GraphiqModel.Proofs.LCRepair
 namespace Graphiq.LC
 open Graphiq PRow Tab Graphiq.TabSpec
 
@@ -273,5 +274,70 @@ theorem converter_core (n : Nat) (A B : Adj) (hA : Simple n A) (hB : Simple n B)
     rw [hz, hkD]; simp
   rw [groupSign_complete t2 hv2 hr2 _ _ rfl hin (sameBits_refl _ _)]
   rfl
+
+/-! ### `converter_gate_list` and `lc_check` -/
+
+/-- `converter_gate_list` and `lc_check` over the whole-graph algorithm: after a `yes` they return the gates of `Q` followed by
+    `Z` corrections — no assertion, no warning — with or without validation -/
+theorem lcCheck_of_yes (a b : BMat) (out : EqOut) (s : List Bool) (hn : 0 < a.r) (hab : a.r = b.r)
+    (ha : Simple a.r a.f) (hb : Simple b.r b.f) (e : isLcEquivalent a b .det [] = .ok out) (hs : out.sol = some s) :
+    ∃ zs, converterGateList a b = .ok (qGates a.r s ++ zs, true) ∧
+      ∀ validate, lcCheck a b validate = .ok (true, qGates a.r s ++ zs) := by
+  obtain ⟨_, h2, h3⟩ := isLcEquivalent_sound_all a b .det [] out s hn e hs
+  have h2' := (solF_coeff_iff a.r a.f b.f _).mp h2
+  have hb' : Simple a.r b.f := by rw [hab]; exact hb
+  obtain ⟨t1, zs, t2, e1, e2, e3, e4⟩ := converter_core a.r a.f b.f ha hb' s h2' h3
+  have hconv : converterGateList a b = .ok (qGates a.r s ++ zs, true) := by
+    unfold converterGateList
+    rw [e]
+    simp only [hs]
+    show ((match runGates (graphTab a.r a.f) (qGates a.r s) with
+      | Except.error e => Except.error e
+      | Except.ok t => match phaseCorrection t b.f with
+        | some zs => Except.ok (qGates a.r s ++ zs, true)
+        | none => Except.ok (qGates a.r s, false)) : Except Err (List (String × Nat) × Bool)) = _
+    rw [e1]
+    simp only [e2]
+  refine ⟨zs, hconv, fun validate => ?_⟩
+  unfold lcCheck
+  rw [hconv]
+  simp only []
+  cases validate
+  · rfl
+  · simp only [if_true, e3, e4]
+
+/-- the same over the repaired function -/
+theorem lcCheckR_of_yes (a b : BMat) (out : EqOutR) (s : List Bool) (hab : a.r = b.r)
+    (ha : Simple a.r a.f) (hb : Simple b.r b.f) (e : isLcEquivalentR a b .det [] = .ok out) (hs : out.sol = some s) :
+    ∃ zs, converterGateListR a b = .ok (qGates a.r s ++ zs, true) ∧
+      ∀ validate, lcCheckR a b validate = .ok (true, qGates a.r s ++ zs) := by
+  have hb' : Simple a.r b.f := by rw [hab]; exact hb
+  obtain ⟨_, h2, h3⟩ := isLcEquivalentR_yes a b .det [] out s ha hb' e hs
+  obtain ⟨t1, zs, t2, e1, e2, e3, e4⟩ := converter_core a.r a.f b.f ha hb' s h2 h3
+  have hconv : converterGateListR a b = .ok (qGates a.r s ++ zs, true) := by
+    unfold converterGateListR
+    rw [e]
+    simp only [hs]
+    show ((match runGates (graphTab a.r a.f) (qGates a.r s) with
+      | Except.error e => Except.error e
+      | Except.ok t => match phaseCorrection t b.f with
+        | some zs => Except.ok (qGates a.r s ++ zs, true)
+        | none => Except.ok (qGates a.r s, false)) : Except Err (List (String × Nat) × Bool)) = _
+    rw [e1]
+    simp only [e2]
+  refine ⟨zs, hconv, fun validate => ?_⟩
+  unfold lcCheckR
+  rw [hconv]
+  simp only []
+  cases validate
+  · rfl
+  · simp only [if_true, e3, e4]
+
+/-- after a `no`, `lc_check` returns `(False, [])` (the assertion of `converter_gate_list` is swallowed by the bare `except`) -/
+theorem lcCheckR_of_no (a b : BMat) (out : EqOutR) (e : isLcEquivalentR a b .det [] = .ok out) (hs : out.sol = none)
+    (validate : Bool) : lcCheckR a b validate = .ok (false, []) := by
+  unfold lcCheckR converterGateListR
+  rw [e]
+  simp only [hs]
 
 end Graphiq.LC
